@@ -371,7 +371,7 @@ void ScriptVM::HandleScriptException(const std::exception& exc, const OutputInfo
 {
     std::ostream* out = info.GetOutput(outputLevel_e::Warn);
 
-    if (m_ScriptClass)
+    if (m_ScriptClass && out)
     {
         const ProgramScript* const scr = m_ScriptClass->GetScript();
         scr->PrintSourcePos(*out, m_PrevCodePos - scr->GetProgBuffer());
